@@ -6,20 +6,19 @@
 package fuzzpkg
 
 import (
-	"archive/tar"
 	"bytes"
-	"compress/gzip"
 	"fmt"
 	"os"
 	"path/filepath"
 	"strings"
 	"testing"
-	"time"
 	"unicode/utf8"
 
 	slug "github.com/hashicorp/go-slug"
 	"github.com/hashicorp/go-slug/sourceaddrs"
 	"github.com/hashicorp/go-slug/sourcebundle"
+
+	"verif/harness/gen"
 )
 
 var seedAddrs = []string{"./a", "../", "hashicorp/subnets/cidr//x", "example.com/ns/n/sys@1.0.0//s", "git::https://example.com/r.git//s?ref=x", "https://example.com/x.tgz?archive=tgz",
@@ -112,67 +111,6 @@ func FuzzRoundTrip(f *testing.F) {
 // run registered under C19 can only fail for a C19 reason.
 var oracle = os.Getenv("VERIF_FUZZ_ORACLE")
 
-// decodeEntries turns fuzz bytes into at most five tar entries: per entry a
-// type selector, a name and a link target. The tar and gzip framing is written
-// by the target, so every mutation of the bytes is a well-formed archive with
-// a different hostile shape. A field never contains more than two ".."
-// components, so even on a build that has lost all containment the damage
-// stays inside the test's temporary directory (dst is three levels below it).
-func decodeEntries(data []byte) []*tar.Header {
-	types := []byte{tar.TypeReg, tar.TypeDir, tar.TypeSymlink, tar.TypeLink, tar.TypeSymlink, tar.TypeReg, tar.TypeFifo, tar.TypeXGlobalHeader}
-	clamp := func(b []byte) string {
-		p := strings.ReplaceAll(string(b), "\x00", "")
-		segs := strings.Split(p, "/")
-		n := 0
-		for i, sg := range segs {
-			if sg == ".." {
-				n++
-				if n > 2 {
-					segs[i] = "."
-				}
-			}
-		}
-		return strings.Join(segs, "/")
-	}
-	var out []*tar.Header
-	for len(data) >= 3 && len(out) < 5 {
-		typ, nl, ll := data[0], int(data[1])%40, int(data[2])%40
-		data = data[3:]
-		take := func(n int) []byte {
-			if n > len(data) {
-				n = len(data)
-			}
-			b := data[:n]
-			data = data[n:]
-			return b
-		}
-		modes := []int64{0644, 0755, 0700, 0777}
-		h := &tar.Header{Typeflag: types[int(typ)%len(types)], Name: clamp(take(nl)), Mode: modes[int(typ>>3)%len(modes)], ModTime: time.Unix(1000000000, 0)}
-		switch h.Typeflag {
-		case tar.TypeXGlobalHeader:
-			// archive/tar writes a global header only if nothing but the name and records are set
-			h = &tar.Header{Typeflag: tar.TypeXGlobalHeader, Name: h.Name, Format: tar.FormatPAX, PAXRecords: map[string]string{"comment": "c"}}
-		case tar.TypeSymlink, tar.TypeLink:
-			h.Linkname = clamp(take(ll))
-		case tar.TypeReg:
-			h.Size = 1
-		}
-		out = append(out, h)
-	}
-	return out
-}
-
-func encodeEntries(es ...[3]string) []byte {
-	sel := map[string]byte{"f": 0, "d": 1, "l": 2, "h": 3, "p": 6, "g": 7}
-	var b []byte
-	for _, e := range es {
-		b = append(b, sel[e[0]], byte(len(e[1])), byte(len(e[2])))
-		b = append(b, e[1]...)
-		b = append(b, e[2]...)
-	}
-	return b
-}
-
 type fileFact struct {
 	Mode    os.FileMode
 	Mtime   int64
@@ -206,37 +144,28 @@ func facts(root, skip string) map[string]fileFact {
 // with VERIF_FUZZ_ORACLE=contain, neither creates, removes nor changes
 // anything outside dst (C01).
 func FuzzUnpack(f *testing.F) {
-	f.Add(encodeEntries([3]string{"f", "a", ""}, [3]string{"d", "d/", ""}, [3]string{"f", "d/x", ""}))
-	f.Add(encodeEntries([3]string{"l", "l", ".."}, [3]string{"f", "l/x", ""}))
-	f.Add(encodeEntries([3]string{"l", "l", "../dst-evil"}, [3]string{"f", "l/x", ""}))
-	f.Add(encodeEntries([3]string{"d", "a", ""}, [3]string{"l", "a/l", "../.."}, [3]string{"l", "m", "a/l/.."}, [3]string{"f", "m/x", ""}))
-	f.Add(encodeEntries([3]string{"f", "../x", ""}, [3]string{"h", "h", "../secret"}, [3]string{"f", "h", ""}))
-	f.Add(encodeEntries([3]string{"l", "a", "b"}, [3]string{"l", "b", "../other"}, [3]string{"f", "a/f", ""}))
-	f.Add(encodeEntries([3]string{"d", "..", ""}, [3]string{"d", "a/../..", ""}))
-	f.Add(encodeEntries([3]string{"g", "../g/h", ""}, [3]string{"d", "a", ""}, [3]string{"l", "a", "../other"}))
-	f.Add(encodeEntries([3]string{"g", "../g", ""}, [3]string{"p", "p", ""}, [3]string{"l", "s", "/etc"}, [3]string{"f", "./s/../q", ""}))
+	f.Add(gen.EncodeFuzzEntries([3]string{"f", "a", ""}, [3]string{"d", "d/", ""}, [3]string{"f", "d/x", ""}))
+	f.Add(gen.EncodeFuzzEntries([3]string{"l", "l", ".."}, [3]string{"f", "l/x", ""}))
+	f.Add(gen.EncodeFuzzEntries([3]string{"l", "l", "../dst-evil"}, [3]string{"f", "l/x", ""}))
+	f.Add(gen.EncodeFuzzEntries([3]string{"d", "a", ""}, [3]string{"l", "a/l", "../.."}, [3]string{"l", "m", "a/l/.."}, [3]string{"f", "m/x", ""}))
+	f.Add(gen.EncodeFuzzEntries([3]string{"f", "../x", ""}, [3]string{"h", "h", "../secret"}, [3]string{"f", "h", ""}))
+	f.Add(gen.EncodeFuzzEntries([3]string{"l", "a", "b"}, [3]string{"l", "b", "../other"}, [3]string{"f", "a/f", ""}))
+	f.Add(gen.EncodeFuzzEntries([3]string{"d", "..", ""}, [3]string{"d", "a/../..", ""}))
+	f.Add(gen.EncodeFuzzEntries([3]string{"g", "../g/h", ""}, [3]string{"d", "a", ""}, [3]string{"l", "a", "../other"}))
+	f.Add(gen.EncodeFuzzEntries([3]string{"g", "../g", ""}, [3]string{"p", "p", ""}, [3]string{"l", "s", "/etc"}, [3]string{"f", "./s/../q", ""}))
 	f.Fuzz(func(t *testing.T, data []byte) {
-		hs := decodeEntries(data)
+		es := gen.DecodeFuzzEntries(data)
 		dir := t.TempDir()
-		for _, h := range hs {
+		for i := range es {
 			// absolute link targets are re-rooted inside the watched directory
-			if strings.HasPrefix(h.Linkname, "/") {
-				h.Linkname = filepath.Join(dir, "w", "v", "other") + h.Linkname
+			if strings.HasPrefix(es[i].Link, "/") {
+				es[i].Link = filepath.Join(dir, "w", "v", "other") + es[i].Link
 			}
 		}
-		var raw bytes.Buffer
-		gz := gzip.NewWriter(&raw)
-		tw := tar.NewWriter(gz)
-		for _, h := range hs {
-			if err := tw.WriteHeader(h); err != nil {
-				return // the archive writer cannot express this entry
-			}
-			if h.Typeflag == tar.TypeReg {
-				tw.Write([]byte("N"))
-			}
+		raw, err := gen.BuildTarGz(es, "")
+		if err != nil {
+			return // the archive writer cannot express this entry
 		}
-		tw.Close()
-		gz.Close()
 		dst := filepath.Join(dir, "w", "v", "dst")
 		os.MkdirAll(dst, 0755)
 		os.MkdirAll(filepath.Join(dir, "w", "v", "dst-evil"), 0755)
@@ -249,30 +178,30 @@ func FuzzUnpack(f *testing.F) {
 		if oracle == "contain" {
 			before = facts(dir, dst)
 		}
-		slug.Unpack(bytes.NewReader(raw.Bytes()), dst)
+		slug.Unpack(bytes.NewReader(raw), dst)
 		if oracle != "contain" {
 			return
 		}
 		after := facts(dir, dst)
 		for p, a := range after {
 			if b, ok := before[p]; !ok {
-				t.Fatalf("%s appeared outside dst (entries %s)", strings.TrimPrefix(p, dir), describe(hs))
+				t.Fatalf("%s appeared outside dst (entries %s)", strings.TrimPrefix(p, dir), describe(es))
 			} else if a != b {
-				t.Fatalf("%s outside dst changed from %v to %v (entries %s)", strings.TrimPrefix(p, dir), b, a, describe(hs))
+				t.Fatalf("%s outside dst changed from %v to %v (entries %s)", strings.TrimPrefix(p, dir), b, a, describe(es))
 			}
 		}
 		for p := range before {
 			if _, ok := after[p]; !ok {
-				t.Fatalf("%s outside dst disappeared (entries %s)", strings.TrimPrefix(p, dir), describe(hs))
+				t.Fatalf("%s outside dst disappeared (entries %s)", strings.TrimPrefix(p, dir), describe(es))
 			}
 		}
 	})
 }
 
-func describe(hs []*tar.Header) string {
+func describe(es []gen.TarEntry) string {
 	var sb strings.Builder
-	for _, h := range hs {
-		fmt.Fprintf(&sb, "[%c %q -> %q] ", h.Typeflag, h.Name, h.Linkname)
+	for _, e := range es {
+		fmt.Fprintf(&sb, "[%s] ", e)
 	}
 	return sb.String()
 }
